@@ -1,0 +1,79 @@
+// SPDX-FileCopyrightText: Copyright (c) 2022-2025 Objectionary.com
+// SPDX-License-Identifier: MIT
+
+// Verification hook (cargo feature `verif`): read-only copy-out of the complete internal state.
+
+use crate::{Hex, Label, Persistence, Sodg};
+
+/// Plain-typed copy of one vertex slot.
+#[derive(Clone, Debug, PartialEq, Eq, Hash)]
+pub struct VerifSlot {
+    /// 0 = absent, 1 = present and ungrouped, >=2 = member of that group.
+    pub tag: usize,
+    /// 0 = Empty, 1 = Stored (unread), 2 = Taken (read).
+    pub persistence: u8,
+    /// The data bytes.
+    pub data: Vec<u8>,
+    /// `true` when the data is kept in the heap representation.
+    pub heap: bool,
+    /// The raw inline array (all 8 bytes), empty for the heap representation.
+    pub raw: Vec<u8>,
+    /// Edges in enumeration order: label and target.
+    pub edges: Vec<(Label, usize)>,
+}
+
+/// Plain-typed copy of the whole graph.
+#[derive(Clone, Debug, PartialEq, Eq, Hash)]
+pub struct VerifSnapshot {
+    pub capacity: usize,
+    pub slots: Vec<Option<VerifSlot>>,
+    pub members: Vec<Vec<usize>>,
+    pub counters: Vec<usize>,
+    pub next_v: usize,
+}
+
+impl<const N: usize> Sodg<N> {
+    /// Copy out the complete internal state.
+    #[must_use]
+    pub fn verif_snapshot(&self) -> VerifSnapshot {
+        let capacity = self.vertices.capacity();
+        let mut slots = Vec::with_capacity(capacity);
+        for v in 0..capacity {
+            slots.push(self.vertices.get(v).map(|vtx| VerifSlot {
+                tag: vtx.branch,
+                persistence: match vtx.persistence {
+                    Persistence::Empty => 0,
+                    Persistence::Stored => 1,
+                    Persistence::Taken => 2,
+                },
+                data: vtx.data.bytes().to_vec(),
+                heap: matches!(vtx.data, Hex::Vector(_)),
+                raw: match &vtx.data {
+                    Hex::Vector(_) => vec![],
+                    Hex::Bytes(a, _) => a.to_vec(),
+                },
+                edges: vtx.edges.iter().map(|(a, t)| (*a, *t)).collect(),
+            }));
+        }
+        let mut members = vec![];
+        for b in 0..self.branches.capacity() {
+            members.push(
+                self.branches
+                    .get(b)
+                    .map(|m| m.iter().copied().collect())
+                    .unwrap_or_default(),
+            );
+        }
+        let mut counters = vec![];
+        for b in 0..self.stores.capacity() {
+            counters.push(self.stores.get(b).copied().unwrap_or(usize::MAX));
+        }
+        VerifSnapshot {
+            capacity,
+            slots,
+            members,
+            counters,
+            next_v: self.next_v,
+        }
+    }
+}
